@@ -558,6 +558,17 @@ def rleBoolEncode (xs : List Bool) : List Nat :=
   let body := rleEncode 1 (xs.map (fun b => if b then 1 else 0))
   leBytes 4 body.length ++ body
 
+/-- `Interner::intern` over a value list: distinct values in first-occurrence order -/
+def dictUniques {α} [BEq α] : List α → List α → List α
+  | acc, [] => acc
+  | acc, x :: xs => if acc.contains x then dictUniques acc xs else dictUniques (acc ++ [x]) xs
+
+/-- `DictEncoder::write_indices`: bit-width byte, then the hybrid-RLE encoded indices -/
+def dictIndexPage {α} [BEq α] (xs : List α) : List Nat :=
+  let us := dictUniques [] xs
+  let bw := numRequiredBits (us.length - 1)
+  bw :: rleEncode bw (xs.map (fun x => us.idxOf x))
+
 /-! ### record assembly from levels (the reader side of Dremel) -/
 
 /-- parse one value of path `p` from the entry stream: `d` = definition level reached so
